@@ -42,6 +42,7 @@ MsgComplete(a) == a.w # "optional" /\ Vars(a.item) = <<>> /\ a.sid # -1
 PropC16(e) == e.ev = "snap" =>
   LET x == ItemOf(e)  vs == Vars(x) IN
   /\ e.vars = vs /\ NoDup(e.vars)                                    \* every unfilled variable exactly once
+  /\ e.vars2 = e.vars /\ e.bytes2 = e.bytes                          \* ... whatever the caller did to the previous answer
   \* ... in the order in which the names appear in the printed form
   /\ LET shown == [i \in 1..Len(vs) |-> Shown(vs[i])]
          S == {shown[i] : i \in 1..Len(shown)}
@@ -102,6 +103,8 @@ PropC12(e) ==
        LET v == ValidVarName(e.name)  el == IsEllipsisName(e.name)  o(b) == IF b THEN "ok" ELSE "refused" IN
        /\ e.array = o(v) /\ e.ascii = o(v) /\ e.list1 = o(v)
        /\ e.list2 = o(v \/ el) /\ e.dup = "refused" /\ e.twoell = o(v)
+       \* no name occurs twice anywhere in a tree, however the tree comes about
+       /\ e.dupsib = "refused" /\ e.dupcousin = "refused" /\ e.duprename = "refused" /\ e.dupinsert = "refused"
   /\ e.ev = "ctorbounds" =>
        LET lo == e.lo  hi == e.hi
            ok == ~lo.neg /\ (~hi.neg \/ hi.dec = <<1>>) /\ (hi.neg \/ Cmp(FromDec(lo.dec), FromDec(hi.dec)) <= 0) IN
